@@ -283,6 +283,15 @@ class Interp:
         try:
             env = self.bind(qual, fn, self_obj, args, kwargs)
             frame = Frame(self, qual, fn, env)
+            if _is_generator(fn):
+                # a generator function: evaluated eagerly, the values it yields are handed back as a list
+                # (what a consumer that exhausts it sees; laziness itself is not modelled)
+                frame.yielded = []
+                try:
+                    frame.exec_block(fn.body)
+                except _Return:
+                    pass
+                return list(frame.yielded)
             try:
                 frame.exec_block(fn.body)
             except _Return as r:
@@ -448,7 +457,33 @@ def pytype_of(v: Any) -> str:
     raise AnalysisError(f"no type tag for {v!r}")
 
 
+_GEN_MEMO: dict = {}
+
+
+def _is_generator(fn: ast.FunctionDef) -> bool:
+    hit = _GEN_MEMO.get(id(fn))
+    if hit is not None and hit[0] is fn:
+        return hit[1]
+    r = _is_generator_uncached(fn)
+    _GEN_MEMO[id(fn)] = (fn, r)
+    return r
+
+
+def _is_generator_uncached(fn: ast.FunctionDef) -> bool:
+    todo = list(fn.body)
+    while todo:
+        n = todo.pop()
+        if isinstance(n, (ast.Yield, ast.YieldFrom)):
+            return True
+        if isinstance(n, (ast.FunctionDef, ast.AsyncFunctionDef, ast.Lambda, ast.ClassDef)):
+            continue
+        todo.extend(ast.iter_child_nodes(n))
+    return False
+
+
 class Frame:
+    yielded: list | None = None
+
     def __init__(self, interp: Interp, qual: str, fn: ast.FunctionDef | None, env: dict):
         self.I = interp
         self.qual = qual
@@ -1143,12 +1178,25 @@ class Frame:
         if not t.is_concrete():
             raise AnalysisError("symbolic % template")
         s = t.concrete()
+        mapping = arg if isinstance(arg, (dict, HDict)) else None
         args = list(arg) if isinstance(arg, tuple) else [arg]
         out: list[Any] = []
         i = 0
         while i < len(s):
             if s[i] == "%" and i + 1 < len(s):
                 c = s[i + 1]
+                if c == "(" and mapping is not None and ")" in s[i:]:
+                    # %(name)s / %(name)d / %(name)r
+                    j = s.index(")", i)
+                    name = s[i + 2 : j]
+                    conv = s[j + 1] if j + 1 < len(s) else ""
+                    if conv not in "sdr":
+                        raise AnalysisError(f"% format ({name}){conv}")
+                    if not self.contains(mapping, name):
+                        raise PyExc("KeyError", (name,))
+                    out.append(self.to_str(self.getitem(mapping, name, None)))
+                    i = j + 2
+                    continue
                 if c == "%":
                     out.append("%")
                 elif c in "sd":
@@ -1356,6 +1404,18 @@ class Frame:
 
     def e_Lambda(self, n: ast.Lambda) -> Any:
         return FuncRef(None, builtin="lambda", self_obj=(self, n))
+
+    def e_Yield(self, n: ast.Yield) -> Any:
+        if self.yielded is None:
+            raise AnalysisError(f"yield outside a modelled generator ({self.qual})")
+        self.yielded.append(self.eval(n.value) if n.value is not None else None)
+        return None
+
+    def e_YieldFrom(self, n: ast.YieldFrom) -> Any:
+        if self.yielded is None:
+            raise AnalysisError(f"yield from outside a modelled generator ({self.qual})")
+        self.yielded.extend(self.iterate(self.eval(n.value)))
+        return None
 
     def e_Starred(self, n: ast.Starred) -> Any:
         raise AnalysisError("starred expression outside call")
